@@ -165,7 +165,16 @@ def refusals(func, resolver=None, depth=0, want="raise"):
                         guard.append(("not", f))
                     elif exits(st.orelse) and not exits(st.body):
                         guard.append(f)
-            elif isinstance(st, (ast.For, ast.While)):
+            elif isinstance(st, ast.For):
+                # a check inside a loop is made for the elements the loop
+                # visits: the (alias-expanded) iterable is part of the guard
+                it = _Expand(aliases).visit(ast.parse(
+                    ast.unparse(st.iter), mode="eval").body)
+                head = ("atom", f"for {ast.unparse(st.target)} in "
+                        + " ".join(ast.unparse(it).split()))
+                walk(st.body, guard + [head])
+                walk(st.orelse, guard)
+            elif isinstance(st, ast.While):
                 walk(st.body, guard)
                 walk(st.orelse, guard)
             elif isinstance(st, ast.With):
